@@ -376,6 +376,28 @@ def r5_failed_result_pairing(chk, rule='C07.R5'):
                         ok = True
             chk.ob(rule, 'compile/%s.pop(%s)#%d' % (r.failed, k, n), ok, where(r.mod, st),
                    'failure forgotten but the recorded failed status stays in RESULT (stale status)')
+    # the converse: a failed / missing status is never recorded without the module entering the failed map (the map,
+    # not the status, is what the abort guard, the borrow stage and the final report consult)
+    for st in walk_no_nested(r.fn):
+        ss = cr.subscript_store(st)
+        if not (ss and ss[0] == r.result and isinstance(ss[1], ast.Name) and
+                cr.status_of(ss[2], r.status_consts) in ('failed', 'missing')):
+            continue
+        k = ss[1].id
+        cands = []
+        for cand in sibling_stmts(st):
+            cands.append(cand)
+            if isinstance(cand, ast.If) and isinstance(cand.test, ast.Compare) and \
+                    isinstance(cand.test.ops[0], ast.NotIn) and _key_is(cand.test.left, k) and \
+                    _key_is(cand.test.comparators[0], r.failed) and not cand.orelse:
+                cands.extend(cand.body)   # `if k not in FAILED: FAILED[k] = exc`
+        ok = any(cr.subscript_store(c) and cr.subscript_store(c)[0] == r.failed and _key_is(cr.subscript_store(c)[1], k)
+                 for c in cands)
+        nconv = locals().get('nconv', 0) + 1
+        chk.ob(rule, 'compile/%s[%s]=%s needs %s[%s]#%d' % (r.result, k, cr.status_of(ss[2], r.status_consts), r.failed,
+                                                          k, nconv), ok, where(r.mod, st),
+               'the module is reported %s but is not entered into %s: the abort guard and the borrow stage do not see '
+               'the failure' % (cr.status_of(ss[2], r.status_consts), r.failed))
     # removals must use the key variable under which failures are recorded in the same loop nest
     for st in walk_no_nested(r.fn):
         removed = [k for d, k in cr.del_targets(st) if d == r.failed]
@@ -714,6 +736,14 @@ def r8_closure_discovery(chk):
     r1_worklist_growth(chk, rule='C07.R8')
 
 
-RULES = [r1_containment, r2_no_package_raise_escapes, r3_status_values, r4_no_silent_drop, r4b_popped_name_accounted,
+def r9_wellformedness(chk):
+    rels = sorted(r for r in chk.model.modules if r.startswith(('pysmi/compiler.py', 'pysmi/mibinfo.py', 'pysmi/codegen/', 'pysmi/parser/', 'pysmi/lexer/')))
+    common.wellformedness(chk, 'C07.R9', rels, floor=100)
+    common.part_handlers_return(chk, 'C07.R9', 'pysmi/codegen/intermediate.py', 'IntermediateCodeGen')
+    common.part_handlers_return(chk, 'C07.R9', 'pysmi/codegen/symtable.py', 'SymtableCodeGen')
+
+
+
+RULES = [r9_wellformedness, r1_containment, r2_no_package_raise_escapes, r3_status_values, r4_no_silent_drop, r4b_popped_name_accounted,
          r5_failed_result_pairing, r6_single_writer_site, r7_foreign_exceptions,
          r8_closure_discovery]
